@@ -673,6 +673,13 @@ def chess_evalcalls(board=None, extra=None):
                 return pnew((("lit", args[0][1] + d[0]), ("lit", args[0][2] + d[1])))
         return None
 
+    def padd_unsafe(args):
+        if len(args) == 2 and args[0][:1] == ("pos",) and args[1][:1] == ("tup",) and len(args[1]) == 3:
+            d = ints(args[1][1:])
+            if d is not None:
+                return ("pos", args[0][1] + d[0], args[0][2] + d[1])
+        return None
+
     def other(args):
         if args and args[0][0] == "variant" and args[0][1].startswith("chess::Player::"):
             return ("variant", "chess::Player::" + ("Black" if args[0][1].endswith("White") else "White"))
@@ -683,7 +690,8 @@ def chess_evalcalls(board=None, extra=None):
             return board.get((args[1][1], args[1][2]))
         return None
     ev = {P + "new": pnew, P + "new_assert": pmk, P + "new_unsafe": pmk, P + "new_unchecked": pmk, P + "row": prow, P + "col": pcol,
-          P + "as_usize": pidx, P + "add": padd, "chess::Player::the_other": other, "chess::Game::get_position": getpos}
+          P + "as_usize": pidx, P + "add": padd, P + "add_unsafe": padd_unsafe, "chess::Player::the_other": other,
+          "chess::Game::get_position": getpos}
     if extra:
         ev.update(extra)
     return ev
